@@ -25,11 +25,13 @@ PID = "C18"
 LEVEL = "exploration"
 RULE = (
     "programs = recording callable (unsafe / alters_data method, function, static and class method, callable object, "
-    "class; name-based rejection by an overridden is_safe_callable; safe controls; reached by name, attribute, "
+    "class; markers held in the instance dict, on the class, inherited, as a property, in __slots__ or served by __getattr__; "
+    "name-based rejection by an overridden is_safe_callable; safe controls; reached by name, attribute, "
     "subscript, attr filter, map(attribute), container element, nested object) x call path (direct, set/with alias, "
     "macro positional/keyword/default/varargs/kwargs argument, enclosing scope of a macro, call-block target with and "
     "without arguments, inside a call block, via caller(), loop variable incl. recursive loops and scoped blocks, "
-    "list/tuple/dict/namespace element, result of default/first/last/select/list filters, conditional and boolean "
+    "set / with / for target / macro parameter / context variable named like an engine-special name (caller, varargs, "
+    "kwargs, self, super, loop, context, environment, ...), list/tuple/dict/namespace element, result of default/first/last/select/list filters, conditional and boolean "
     "expressions, loop.cycle, returned by another call, argument of filters/tests/calls/macros, if/for/set/with/filter "
     "block/autoescape/do positions, blocks and self.block(), included template, imported macro, child block and "
     "super()) x argument shape (none, positional, keyword, *args, **kwargs) x reachability wrapper (if/else/elif, "
@@ -159,19 +161,84 @@ def make_world():
         def __repr__(self):
             return "<ucls>"
 
-    u = Box()
+    class ACls:
+        alters_data = True
+
+        def __init__(self, *a, **k):
+            rec("ACls", a, k)
+
+        def __repr__(self):
+            return "<acls>"
+
+    # callable objects whose marker does not live in the instance __dict__
+    class ClassAlters(CallObj):
+        alters_data = True
+
+    class ClassUnsafe(CallObj):
+        unsafe_callable = True
+
+    class InheritedUnsafe(ClassUnsafe):
+        pass
+
+    class InheritedAlters(ClassAlters):
+        pass
+
+    class PropAlters(CallObj):
+        @property
+        def alters_data(self):
+            return True
+
+    class PropUnsafe(CallObj):
+        @property
+        def unsafe_callable(self):
+            return True
+
+    class Slots:
+        __slots__ = ("_name", "unsafe_callable", "alters_data")
+
+        def __init__(self, name, **marks):
+            self._name = name
+            for m in ("unsafe_callable", "alters_data"):
+                setattr(self, m, marks.get(m, False))
+
+        def __call__(self, *a, **k):
+            return rec(self._name, a, k)
+
+        def __repr__(self):
+            return "<slots %s>" % self._name
+
+    class GetattrUnsafe(CallObj):
+        def __getattr__(self, name):
+            if name == "unsafe_callable":
+                return True
+            raise AttributeError(name)
+
+    class Box2(Box):
+        pass
+
+    Box.inherited_boom = unsafe(lambda self, *a, **k: rec("inherited_boom", a, k))
+    u = Box2()
     u.child = Box("child.")
     uobj, aobj = CallObj("uobj", unsafe_callable=True), CallObj("aobj", alters_data=True)
+    extra = {
+        "cobj_class_alters": ClassAlters("cobj_class_alters"), "cobj_class_unsafe": ClassUnsafe("cobj_class_unsafe"),
+        "cobj_inherited_unsafe": InheritedUnsafe("cobj_inherited_unsafe"), "cobj_inherited_alters": InheritedAlters("cobj_inherited_alters"),
+        "cobj_prop_alters": PropAlters("cobj_prop_alters"), "cobj_prop_unsafe": PropUnsafe("cobj_prop_unsafe"),
+        "cobj_slots_unsafe": Slots("cobj_slots_unsafe", unsafe_callable=True), "cobj_slots_alters": Slots("cobj_slots_alters", alters_data=True),
+        "cobj_getattr_unsafe": GetattrUnsafe("cobj_getattr_unsafe"), "ACls": ACls, "cobj_plain": CallObj("cobj_plain"),
+    }
     table = {
         "boom": u.boom, "wipe": u.wipe, "delete_x": u.delete_x, "ok": u.ok, "ufn": ufn, "afn": afn, "delete_fn": delete_fn,
         "sfn2": sfn2, "uobj": uobj, "aobj": aobj, "UCls": UCls, "aboom": u.aboom, "static_boom": u.static_boom,
-        "class_wipe": u.class_wipe, "child.boom": u.child.boom,
+        "class_wipe": u.class_wipe, "child.boom": u.child.boom, "inherited_boom": u.inherited_boom,
     }
+    table.update(extra)
     ctx = {
         "u": u, "ufn": ufn, "afn": afn, "delete_fn": delete_fn, "sfn": sfn, "sfn2": sfn2, "uobj": uobj, "aobj": aobj,
         "UCls": UCls, "cd": {"f": ufn, "d": delete_fn}, "cl": [afn], "yes": True, "no": False,
     }
-    return ctx, log
+    ctx.update(extra)
+    return ctx, log, table
 
 
 def blocked(marking, envkind):
@@ -217,7 +284,9 @@ def check_case(case):
         if bad:
             raise core.Violation("generated code calls a template value without environment.call: %s (template %s)%s" % (bad[0], tname, where))
 
-    ctx, log = make_world()
+    ctx, log, table = make_world()
+    for cname, pyname in (case.get("ctxbind") or {}).items():
+        ctx[cname] = table[pyname]  # the recorder is a context variable with an engine-special name
     try:
         out, err = g.render(env, src, ctx), None
     except s["SecurityError"] as e:
@@ -266,7 +335,7 @@ def run_shard(spec, ctx):
         if not rec.violations:
             core.hyp_shard(g.call_case(), check_case, ctx, 2500, rec=rec, tag="call")
     else:
-        # thorough: the complete product of the grammar with up to two nested wrappers (about 1.9e6 programs)
+        # thorough: the complete product of the grammar with up to two nested wrappers (about 2e6 programs)
         core.enum_shard(core.sliced(g.call_full_cases(), ctx.index, ctx.nshards), check_case, ctx, rec=rec)
     return rec
 
